@@ -413,22 +413,29 @@ Section Lattice.
         destruct (IHl (fun d' Hd' => Hsub d' (or_intror Hd')) sk1 P1 P2 P3)
           as ([Q1 Q2 Q3 Q4 Q5 Q6 Q7] & Qm).
         cbv zeta in *. split.
-        + constructor; auto.
+        + constructor.
+          * exact Q1.
+          * exact Q2.
+          * exact Q3.
+          * intros z Hz. apply Q4. now apply P4.
           * eapply fp_trans; [|exact Q5]. eapply fp_weaken; [|exact P5].
-            intros z Hz. eapply cov_trans; eauto. now apply derived_cov.
+            intros z Hz. apply (cov_trans L Hwf c d z); [now apply derived_cov|exact Hz].
           * congruence.
           * congruence.
-        + intros d' [<-|Hd']; auto. }
+        + intros d' [<-|Hd']; [now apply Q4|now apply Qm]. }
     destruct (Hkids (derived c) (fun d H => H) st1 K1 Hinv1 Hbl1) as ([Q1 Q2 Q3 Q4 Q5 Q6 Q7] & Qm).
     cbv zeta in *. fold (derived_of_ L c).
     set (st' := fold_left (fun s d => assign_lattice f L ms s d) (derived c) st1) in *.
     assert (Hmc : mark_of st' c = true).
     { apply Q4. rewrite Hm1, Nat.eqb_refl. reflexivity. }
-    split; [|exact Hmc]. constructor; auto.
-    - intros z Hz HnG d Hd. destruct (Nat.eq_dec z c) as [->|Hne].
-      + now apply Qm.
+    split; [|exact Hmc]. constructor.
+    - exact Q1.
+    - exact Q2.
+    - intros z Hz HnG d Hd. destruct (Nat.eq_dec z c) as [E|Hne].
+      + rewrite E in Hd. now apply Qm.
       + apply (Q3 z); auto. intros [E|Hin]; [now apply Hne|now apply HnG].
-    - eapply fp_trans; eauto.
+    - intros z Hz. apply Q4. now apply Hmono1.
+    - eapply fp_trans; [exact Hfp1|exact Q5].
     - rewrite Q6. exact K4.
     - rewrite Q7. exact K5.
   Qed.
